@@ -56,8 +56,8 @@ package jp
 //@     let n = len(tv)
 //@     let has0 = has
 //@     let v0 = v
-//@     assert [C05 C11 nth] spec.NormIndex(i0, len(tv)) >= 0 ==> has && v == tv[spec.NormIndex(i0, len(tv))]
-//@     assert [C05 C11 nth] spec.NormIndex(i0, len(tv)) < 0 ==> has == has0 && v == v0
+//@     assert [C05 C11 nth-hit] spec.NormIndex(i0, len(tv)) >= 0 ==> has && v == tv[spec.NormIndex(i0, len(tv))]
+//@     assert [C05 C11 nth-miss] spec.NormIndex(i0, len(tv)) < 0 ==> has == has0 && v == v0
 
 // Slice fragment on a plain array. lo/hi are the documented bounds (start inclusive, end exclusive, negatives from
 // the end); the forward progression is lo, lo+step, ... < hi, the downward one lo, lo+step, ... > hi (step < 0).
@@ -177,8 +177,8 @@ package jp
 //@     let n = len(tv)
 //@     let has0 = has
 //@     let v0 = v
-//@     assert [C05 C11 nth] spec.NormIndex(i0, len(tv)) >= 0 ==> has && v == tv[spec.NormIndex(i0, len(tv))]
-//@     assert [C05 C11 nth] spec.NormIndex(i0, len(tv)) < 0 ==> has == has0 && v == v0
+//@     assert [C05 C11 nth-hit] spec.NormIndex(i0, len(tv)) >= 0 ==> has && v == tv[spec.NormIndex(i0, len(tv))]
+//@     assert [C05 C11 nth-miss] spec.NormIndex(i0, len(tv)) < 0 ==> has == has0 && v == v0
 
 //@ func (Expr).FirstFound
 //@   opt forkappend = true
@@ -188,15 +188,15 @@ package jp
 //@     let n = len(tv)
 //@     let has0 = has
 //@     let v0 = v
-//@     assert [C11 nth] spec.NormIndex(i0, len(tv)) >= 0 ==> has && v == tv[spec.NormIndex(i0, len(tv))]
-//@     assert [C11 nth] spec.NormIndex(i0, len(tv)) < 0 ==> has == has0 && v == v0
+//@     assert [C11 nth-hit] spec.NormIndex(i0, len(tv)) >= 0 ==> has && v == tv[spec.NormIndex(i0, len(tv))]
+//@     assert [C11 nth-miss] spec.NormIndex(i0, len(tv)) < 0 ==> has == has0 && v == v0
 //@   region nthGenArray = case Nth > case gen.Array
 //@     let i0 = i
 //@     let n = len(tv)
 //@     let has0 = has
 //@     let v0 = v
-//@     assert [C11 nth] spec.NormIndex(i0, len(tv)) >= 0 ==> has && v == tv[spec.NormIndex(i0, len(tv))]
-//@     assert [C11 nth] spec.NormIndex(i0, len(tv)) < 0 ==> has == has0 && v == v0
+//@     assert [C11 nth-hit] spec.NormIndex(i0, len(tv)) >= 0 ==> has && v == tv[spec.NormIndex(i0, len(tv))]
+//@     assert [C11 nth-miss] spec.NormIndex(i0, len(tv)) < 0 ==> has == has0 && v == v0
 
 //@ func (Expr).Has
 //@   opt forkappend = true
@@ -206,15 +206,15 @@ package jp
 //@     let n = len(tv)
 //@     let has0 = has
 //@     let v0 = v
-//@     assert [C11 nth] spec.NormIndex(i0, len(tv)) >= 0 ==> has && v == tv[spec.NormIndex(i0, len(tv))]
-//@     assert [C11 nth] spec.NormIndex(i0, len(tv)) < 0 ==> has == has0 && v == v0
+//@     assert [C11 nth-hit] spec.NormIndex(i0, len(tv)) >= 0 ==> has && v == tv[spec.NormIndex(i0, len(tv))]
+//@     assert [C11 nth-miss] spec.NormIndex(i0, len(tv)) < 0 ==> has == has0 && v == v0
 //@   region nthGenArray = case Nth > case gen.Array
 //@     let i0 = i
 //@     let n = len(tv)
 //@     let has0 = has
 //@     let v0 = v
-//@     assert [C11 nth] spec.NormIndex(i0, len(tv)) >= 0 ==> has && v == tv[spec.NormIndex(i0, len(tv))]
-//@     assert [C11 nth] spec.NormIndex(i0, len(tv)) < 0 ==> has == has0 && v == v0
+//@     assert [C11 nth-hit] spec.NormIndex(i0, len(tv)) >= 0 ==> has && v == tv[spec.NormIndex(i0, len(tv))]
+//@     assert [C11 nth-miss] spec.NormIndex(i0, len(tv)) < 0 ==> has == has0 && v == v0
 
 // ---------------------------------------------------------------------------
 // Filter scripts are total (C12): evaluating the prefix-notation program never raises a runtime fault, for every operator
@@ -334,8 +334,8 @@ package jp
 //@     let c0 = changed
 //@     assert [C13 nth-none] k < 0 ==> changed == c0 && out === out0
 //@     assert [C13 nth-remove] k >= 0 ==> changed && len(anyslice(out, tv)) == n - 1
-//@     assert [C13 nth-remove] k >= 0 ==> (forall j: 0 <= j && j < k ==> anyslice(out, tv)[j] == T0[j])
-//@     assert [C13 nth-remove] k >= 0 ==> (forall j: k <= j && j < n - 1 ==> anyslice(out, tv)[j] == T0[j+1])
+//@     assert [C13 nth-remove-prefix] k >= 0 ==> (forall j: 0 <= j && j < k ==> anyslice(out, tv)[j] == T0[j])
+//@     assert [C13 nth-remove-suffix] k >= 0 ==> (forall j: k <= j && j < n - 1 ==> anyslice(out, tv)[j] == T0[j+1])
 // The same for a gen.Array.
 //@   region rmGen = case gen.Array
 //@     let n = len(tv)
@@ -346,8 +346,8 @@ package jp
 //@     let c0 = changed
 //@     assert [C13 nth-none] k < 0 ==> changed == c0 && out === out0
 //@     assert [C13 nth-remove] k >= 0 ==> changed && len(anyslice(out, tv)) == n - 1
-//@     assert [C13 nth-remove] k >= 0 ==> (forall j: 0 <= j && j < k ==> anyslice(out, tv)[j] == T0[j])
-//@     assert [C13 nth-remove] k >= 0 ==> (forall j: k <= j && j < n - 1 ==> anyslice(out, tv)[j] == T0[j+1])
+//@     assert [C13 nth-remove-prefix] k >= 0 ==> (forall j: 0 <= j && j < k ==> anyslice(out, tv)[j] == T0[j])
+//@     assert [C13 nth-remove-suffix] k >= 0 ==> (forall j: k <= j && j < n - 1 ==> anyslice(out, tv)[j] == T0[j+1])
 
 // Removing a slice fragment from a plain array: a slice that selects nothing (Get's denotation: lo = SliceLo(start),
 // hi = SliceHi(end) exclusive, hi <= lo for a positive step) removes nothing.
